@@ -45,12 +45,50 @@ def run_one(prop, fn, args):
     except Exception as e:    # a crash of the checker is never a verdict
         run.error(f"checker crashed: {type(e).__name__}: {e}")
         traceback.print_exc()
+    if args.tier == "thorough" and not args.no_write and not run.errors:
+        try:
+            thorough(run, prop, args)
+        except Exception as e:
+            run.error(f"self-validation crashed: {type(e).__name__}: {e}")
+            traceback.print_exc()
     try:
         return run.finish()
     except Exception as e:
         traceback.print_exc()
         print(f"ANALYSIS-ERROR property={prop} cannot write evidence: {e}")
         return 2
+
+
+def thorough(run, prop, args):
+    """Thorough tier = quick rules on the working tree + self-validation of the
+    checker on scratch variants of the same tree (mutants.py)."""
+    from . import mutants
+    res, summ = mutants.self_validate(prop, args.repo)
+    run.extra["self_validation"] = {
+        "what": ("break variants (reverted fix: commits + catalogue) must be reported "
+                 "with the expected finding; twin variants (behaviour-preserving "
+                 "rewrites, incl. renaming every local in the tree) must not change "
+                 "the verdict; each variant is a scratch copy analysed statically"),
+        "variants": summ["variants"], "break_variants": summ["break_variants"],
+        "twin_variants": summ["twin_variants"], "ok": summ["ok"],
+        "skipped": [{"id": i, "why": str(d)} for i, d in summ["skipped"]],
+        "missed": [{"id": i, "detail": d} for i, d in summ["missed"]],
+        "noisy": [{"id": i, "detail": d} for i, d in summ["noisy"]],
+        "ok_ids": summ["ok_ids"]}
+    run.rule("SV", "self-validation: the check reports every break variant and "
+             "stays silent on every twin variant")
+    for v, st, d in res:
+        if st == "skipped":
+            continue
+        run.oblige("SV", f"{v.kind}:{v.vid}", st == "ok")
+    for i, d in summ["missed"]:
+        run.error(f"self-validation: break variant {i} was not reported ({d})")
+    for i, d in summ["noisy"]:
+        run.error(f"self-validation: behaviour-preserving variant {i} changed the "
+                  f"verdict ({d})")
+    if summ["variants"] and len(summ["skipped"]) > summ["variants"] // 2:
+        run.unknowns.append(f"self-validation: {len(summ['skipped'])} of "
+                            f"{summ['variants']} variants not applicable to this tree")
 
 
 if __name__ == "__main__":
